@@ -520,7 +520,7 @@ class Program:
 def load(directory, only=None):
     prog = Program()
     for fn in sorted(os.listdir(directory)):
-        if not fn.endswith(".json"):
+        if not fn.endswith(".json") or fn == "attrs.json":
             continue
         if only and not any(fn.startswith(o) for o in only):
             continue
